@@ -577,6 +577,12 @@ private:
             fs::path current_file = entry.path().parent_path();
             current_file.append(current_filename);
 
+            if (!_is_index(index))
+            {
+              // e.g. `logfile.7x.log`, std::stoul would accept the leading digits
+              continue;
+            }
+
             // Attempt to convert the index to a number
             QUILL_TRY
             {
@@ -618,6 +624,11 @@ private:
                   fs::path current_file = entry.path().parent_path();
                   current_file.append(current_filename);
 
+                  if (!_is_index(index_or_date))
+                  {
+                    continue;
+                  }
+
                   // Attempt to convert the index to a number
                   QUILL_TRY
                   {
@@ -636,6 +647,26 @@ private:
       std::sort(_created_files.begin(), _created_files.end(),
                 [](FileInfo const& a, FileInfo const& b) { return a.index < b.index; });
     }
+  }
+
+  /***/
+  QUILL_NODISCARD static bool _is_index(std::string const& s) noexcept
+  {
+    // a rotated file index consists of digits only
+    if (s.empty())
+    {
+      return false;
+    }
+
+    for (char const c : s)
+    {
+      if ((c < '0') || (c > '9'))
+      {
+        return false;
+      }
+    }
+
+    return true;
   }
 
   /***/
